@@ -20,6 +20,8 @@
 #include <fstream>
 #include <iostream>
 
+#include "../common/verif_hooks.h"
+
 /* The CSR matrix format is currently unused, as we use MUMPS which relies on the COO format. */
 /* Here we provide a custom LU decomposition solver, which could be replaced by different library implementation, 
 if we would decide to move away from mumps. */
@@ -275,6 +277,7 @@ const int& SparseMatrixCSR<T>::row_nz_index(int row, int nz_index) const
 {
     assert(row >= 0 && row < rows_);
     assert(nz_index >= 0 && nz_index < row_nz_size(row));
+    VERIF_TOUCH(&column_indices_[row_start_indices_[row] + nz_index], false);
     return column_indices_[row_start_indices_[row] + nz_index];
 }
 
@@ -283,6 +286,7 @@ int& SparseMatrixCSR<T>::row_nz_index(int row, int nz_index)
 {
     assert(row >= 0 && row < rows_);
     assert(nz_index >= 0 && nz_index < row_nz_size(row));
+    VERIF_TOUCH(&column_indices_[row_start_indices_[row] + nz_index], true);
     return column_indices_[row_start_indices_[row] + nz_index];
 }
 
@@ -291,6 +295,7 @@ const T& SparseMatrixCSR<T>::row_nz_entry(int row, int nz_index) const
 {
     assert(row >= 0 && row < rows_);
     assert(nz_index >= 0 && nz_index < row_nz_size(row));
+    VERIF_TOUCH(&values_[row_start_indices_[row] + nz_index], false);
     return values_[row_start_indices_[row] + nz_index];
 }
 
@@ -299,6 +304,7 @@ T& SparseMatrixCSR<T>::row_nz_entry(int row, int nz_index)
 {
     assert(row >= 0 && row < rows_);
     assert(nz_index >= 0 && nz_index < row_nz_size(row));
+    VERIF_TOUCH(&values_[row_start_indices_[row] + nz_index], true);
     return values_[row_start_indices_[row] + nz_index];
 }
 
